@@ -608,7 +608,7 @@ async fn list_archive(
             }
         }
 
-        table.printstd();
+        table.print_tty(false)?;
     } else {
         for file in filtered_files {
             println!("{file}");
@@ -1579,7 +1579,7 @@ fn display_table_output(
     );
 
     println!("\nMetadata Comparison:");
-    metadata_table.printstd();
+    metadata_table.print_tty(false)?;
 
     // File differences
     if let Some(files) = &result.files
@@ -1630,7 +1630,7 @@ fn display_table_output(
                 );
             }
 
-            size_table.printstd();
+            size_table.print_tty(false)?;
 
             if files.size_differences.len() > 10 {
                 println!(
@@ -2478,7 +2478,7 @@ fn visualize_patch_chain(base: &str, patches: Vec<String>, detailed: bool) -> Re
             );
         }
 
-        table.printstd();
+        table.print_tty(false)?;
 
         // Show sample of files that have patches
         println!("\nScanning for patch files...");
